@@ -609,10 +609,34 @@ class Interp:
             vals = list(v.fields.values()) if isinstance(v, StructV) else []
             for s in pat["subs"]:
                 self.bind(st, s["p"], vals[s["f"]] if s["f"] < len(vals) else Opaque("variant field"))
-        elif k in ("Constant", "Or"):
+        elif k in ("Constant", "Or", "Range"):
             pass
+        elif k == "Slice":
+            # irrefutable uses (let [a, b] = arr): go through the matcher and keep the matching state's bindings
+            for s2, m in self.match_pat(st, pat, v):
+                if m and s2 is not st:
+                    st.env.update(s2.env)
         else:
             raise Unmodelled("pattern " + k)
+
+    def _refutable(self, pat):
+        k = pat["k"]
+        if k in ("Wild",):
+            return False
+        if k == "Binding":
+            return bool(pat.get("sub")) and self._refutable(pat["sub"])
+        if k == "Leaf":
+            return any(self._refutable(sp["p"]) for sp in pat["subs"])
+        if k == "Deref":
+            return self._refutable(pat["sub"])
+        if k == "Slice":
+            return True
+        if k == "Variant":
+            adt = self.F.adts.get(pat["adt"])
+            if adt is not None and len(adt["variants"]) == 1:
+                return any(self._refutable(sp["p"]) for sp in pat["subs"])
+            return True
+        return True
 
     def _leaf_name(self, pat, s):
         t = self.F.types[pat["t"]]
@@ -623,12 +647,102 @@ class Interp:
     def match_pat(self, st, pat, v):
         """list of (state, matched) — matched states have the bindings"""
         k = pat["k"]
+        if k == "Binding" and pat.get("sub"):
+            st.env[(st.frame, pat["var"])] = v
+            return self.match_pat(st, pat["sub"], v)
+        if k == "Leaf" and self._refutable(pat):
+            # a tuple / struct pattern with refutable parts: match them one after the other
+            if isinstance(v, RefV):
+                parts = [RefV(v.key, v.path + (self._leaf_name(pat, sp),)) for sp in pat["subs"]]
+            elif isinstance(v, TupV):
+                parts = [v.items[sp["f"]] if sp["f"] < len(v.items) else Opaque("tuple") for sp in pat["subs"]]
+            elif isinstance(v, StructV):
+                vals = list(v.fields.values())
+                parts = [vals[sp["f"]] if sp["f"] < len(vals) else Opaque("leaf") for sp in pat["subs"]]
+            else:
+                raise Unmodelled("refutable pattern on " + type(v).__name__)
+            res = [(st, True)]
+            for sp, pv in zip(pat["subs"], parts):
+                nxt = []
+                for s0, m in res:
+                    if not m:
+                        nxt.append((s0, m))
+                        continue
+                    if isinstance(pv, RefV) and self._refutable(sp["p"]):
+                        pv = self.read_loc(s0, pv.key, pv.path)
+                    nxt.extend(self.match_pat(s0, sp["p"], pv))
+                res = nxt
+            return res
         if k in ("Binding", "Wild", "Leaf"):
-            if k == "Leaf":
-                # sub-patterns may be refutable; handle the irrefutable common case
-                pass
             self.bind(st, pat, v)
             return [(st, True)]
+        if k == "Range":
+            if isinstance(v, RefV):
+                v = self.read_loc(st, v.key, v.path)
+            if not isinstance(v, IntV):
+                raise Unmodelled("range pattern on " + type(v).__name__)
+
+            def bound(b):
+                if b in ("-inf", "+inf") or b is None:
+                    return None
+                c = int(b)
+                if v.ty in SIGNED and c >= 1 << (INT_BITS[v.ty] - 1):
+                    c -= 1 << INT_BITS[v.ty]
+                return c
+
+            lo, hi = bound(pat["lo"]), bound(pat["hi"])
+            if (pat["lo"] is None) or (pat["hi"] is None):
+                raise Unmodelled("range pattern with a non-integer bound")
+            conj = []
+            if lo is not None:
+                conj.append(flit(ge(v.l, lo)))
+            if hi is not None:
+                conj.append(flit(le(v.l, hi)) if pat["inclusive"] else flit(lt(v.l, hi)))
+            f = f_and(*conj) if conj else TRUE
+            return [(s, True) for s in self.assume(st, f)] + [(s, False) for s in self.assume(st, f_not(f))]
+        if k == "Slice":
+            if isinstance(v, RefV):
+                v = self.read_loc(st, v.key, v.path)
+            if not isinstance(v, (SliceV, ArrV)):
+                raise Unmodelled("slice pattern on " + type(v).__name__)
+            n = v.length()
+            np_, ns_ = len(pat["prefix"]), len(pat["suffix"])
+            f = flit(ge(n, np_ + ns_)) if pat["slice"] is not None else flit(eq(n, np_ + ns_))
+            out = [(s, False) for s in self.assume(st, f_not(f))]
+            for s in self.assume(st, f):
+                res = [(s, True)]
+
+                def step(res, sub, val_of):
+                    nxt = []
+                    for s0, m in res:
+                        if not m:
+                            nxt.append((s0, m))
+                            continue
+                        for s1, pv in val_of(s0):
+                            nxt.extend(self.match_pat(s1, sub, pv))
+                    return nxt
+
+                def at(s0, idx):
+                    # inside a matched slice pattern the position exists: no bounds obligation
+                    if isinstance(v, SliceV):
+                        return [(s0, self.read_byte(s0, v.base, v.start + idx, pat))]
+                    idx = lin(idx)
+                    if idx.is_const() and 0 <= idx.c < len(v.items):
+                        return [(s0, v.items[idx.c])]
+                    return [(s0, Opaque("array element at a symbolic position"))]
+
+                for i, sub in enumerate(pat["prefix"]):
+                    res = step(res, sub, lambda s0, i=i: at(s0, i))
+                for j, sub in enumerate(pat["suffix"]):
+                    res = step(res, sub, lambda s0, j=j: at(s0, n - ns_ + j))
+                if pat["slice"] is not None:
+                    if isinstance(v, SliceV):
+                        rest = SliceV(v.base, v.start + np_, v.end - ns_)
+                    else:
+                        rest = ArrV(v.items[np_:len(v.items) - ns_])
+                    res = step(res, pat["slice"], lambda s0: [(s0, rest)])
+                out.extend(res)
+            return out
         if k == "Deref":
             if isinstance(v, RefV):
                 v = self.read_loc(st, v.key, v.path)
@@ -1415,8 +1529,14 @@ class Interp:
         return [(st, IntV(Lin.atom(("mod", v.l.key(), 1 << w_tgt)), tgt))]
 
     # ------------------------------------------------------------------ loops
+    def ev_PyBody(self, e, st):
+        return e["fn"](st)
+
     def ev_Loop(self, e, st):
         r = self.loops.while_let_loop(e, st)
+        if r is not None:
+            return r
+        r = self.loops.counter_while_loop(e, st)
         if r is not None:
             return r
         return self.loops.loop(e, st)
